@@ -183,7 +183,9 @@ PIPELINES = {
     # time values around the form boundaries under many offsets (C09), carried by certificates
     "time": {
         "variants": ["ring"],
-        "mc": [{"module": "MC_Time", "workers": 8}],
+        "mc": [{"module": "MC_Time", "workers": 8},
+               # the calendar arithmetic of Time.tla against the definition of the Gregorian calendar, every day of the years 0..9999
+               {"module": "MC_Calendar", "workers": 1, "emits": False, "tiers": ["thorough"]}],
         "drivers": [
             {"name": "cases", "cmd": ["cert-cases", "{cases}", "{out}"], "cases": "MC_Time"},
         ],
